@@ -3,69 +3,86 @@ import MindsVerif.Lemmas.RouteSem
 /-!
 # C11 — a query on one SQL integration is pushed down whole and unchanged in meaning
 
-* T11.3 `C11_decision` / `C11_decision_sound`: `check_single_integration` sends the query to `i`
-  (plan = exactly one fetch step for `i` holding the stripped query) **iff-style**: it does so whenever
-  every item the walker visits is a table that `resolve_database_table` sends to the data
-  integration `i` (SQL-capable, not files/views, no UDF, no native query), and when it does, every
-  visited item is such a table (or a CTE name).
+* T11.3 `C11_decision` / `C11_decision_cte` / `C11_decision_sound`: `check_single_integration` sends the query to
+  `i` (plan = exactly one fetch step for `i` holding the stripped query) whenever every item the walker visits is a
+  table that `resolve_database_table` sends to the data integration `i` (SQL-capable, not files/views, no UDF, no
+  native query) — with the repaired `get_query_info` (`skip = true`, fixes/C11_1.diff) also bare CTE names, under any
+  default namespace — and conversely, when it does, every visited item is such a table (or a CTE name).
 * T11.2 `C11_names`: an identifier target keeps its output column name (an alias is added exactly when
   the bare target would otherwise be the only carrier of the name; the cut never removes the last part).
 * T11.1 `C11_partial_resolution`: in the name-resolution semantics of `Model/Route.lean` every column
   reference of the stripped query denotes, on the integration's own catalog, the same
   (scope depth, table instance, table, column) as in the original on the federated catalog — for all
-  queries of the fragment (any nesting, any number of tables/columns) satisfying `okSel`: no exposed
-  table name (alias / CTE name / unaliased table) equals the integration name, no two-part column
-  reference is qualified by it, and a table named in `db.t.c` is not also used as an alias.
-  `C11_witness_1` shows the excluded class is inhabited and really breaks the meaning.
+  queries of the fragment (any nesting, any number of tables/columns, ANY aliases) satisfying `okSel db names`:
+  table references are `[db.]t` and a two-part column reference is qualified by the integration name only if the
+  cut leaves it alone (`db ∈ names`).  `names = []` is the cut as it is in the code (then `int1.x` through an
+  alias `int1` is outside: `C11_witness_1` shows that class is inhabited and really breaks the meaning);
+  `names` = the aliases of the query is the cut of fixes/C11_2.diff (`C11_witness_1_fixed`: the same query is inside).
 What is **not** proved here: evaluation of whole queries (M6); T11.1 is about name resolution, the
 only thing the rewrite touches.  The end-to-end statement is probed on sqlite3 by `tools/props/c11.py`.
 -/
 namespace MindsVerif.Props.C11
 open MindsVerif.Route
 
-/-- full statement, resolution clause: stripping never changes what a column reference denotes -/
+/-- full statement, resolution clause: stripping never changes what a column reference denotes
+(`names`: the lower-cased aliases / CTE names handed to the cut; `[]` for the code as it is) -/
 def C11_resolution_full : Prop :=
-  ∀ (db : Name) (sch : Schema) (s : Sel),
-    resolveAll false db sch [] (stripSel db s) = resolveAll true db sch [] s
+  ∀ (db : Name) (names : List Name) (sch : Schema) (s : Sel),
+    resolveAll false db sch [] (stripSel db names s) = resolveAll true db sch [] s
 
 /-- full statement, decision clause -/
 def C11_decision_full : Prop :=
-  ∀ (c : Catalog) (ctes : List Name) (q : Node) (i : Name),
+  ∀ (names : List Name) (c : Catalog) (ctes : List Name) (q : Node) (i : Name),
     visit .arg q ≠ [] → allResolveTo c i (visit .arg q) → i ∉ c.projects →
     i ≠ n!"files" → i ≠ n!"views" → c.classType i ≠ some n!"api" →
-    planTop c ctes q = some [.fetch i (strip i .noFrom .arg q)]
+    planTop false names c ctes q = some [.fetch i (strip i names .noFrom .arg q)]
 
 /-- full statement, names clause -/
 def C11_names_full : Prop :=
-  ∀ (db : Name) (par : Par) (s : Slot) (parts : List Name) (alias : Option (List Name)),
-    outName (stripIdent db par s parts false alias).1 (stripIdent db par s parts false alias).2 = outName parts alias
+  ∀ (db : Name) (names : List Name) (par : Par) (s : Slot) (parts : List Name) (alias : Option (List Name)),
+    outName (stripIdent db names par s parts false alias).1 (stripIdent db names par s parts false alias).2 =
+      outName parts alias
 
 def C11_full : Prop := C11_decision_full ∧ C11_names_full ∧ C11_resolution_full
 
 /-- T11.3 -/
 theorem C11_decision : C11_decision_full := by
-  intro c ctes q i hne hall hi hf hv hapi
+  intro names c ctes q i hne hall hi hf hv hapi
   simp [planTop, checkSingle_of_single c ctes i _ hne hall hi hf hv hapi]
 
+/-- T11.3 for both readings of `get_query_info` (`skip = true`: fixes/C11_1.diff): the visited items may also be
+bare CTE names, as long as at least one of them is a real table; with `skip = true` this covers CTE queries
+under ANY default namespace (today only when the default namespace is a project, see `C11_witness_2`) -/
+theorem C11_decision_cte (skip : Bool) (names : List Name) (c : Catalog) (ctes : List Name) (q : Node) (i : Name)
+    (hne : (visit .arg q).any (counted skip ctes) = true)
+    (hall : ∀ it ∈ visit .arg q, itemFine skip c ctes i it) (hi : i ∉ c.projects)
+    (hf : i ≠ n!"files") (hv : i ≠ n!"views") (hapi : c.classType i ≠ some n!"api") :
+    planTop skip names c ctes q = some [.fetch i (strip i names .noFrom .arg q)] := by
+  simp [planTop, checkSingle_of_fine skip c ctes i _ hne hall hi hf hv hapi]
+
 /-- T11.3, converse: a pushdown happens only for such queries, and yields exactly one fetch step -/
-theorem C11_decision_sound (c : Catalog) (ctes : List Name) (q : Node) (steps : List Step)
-    (h : planTop c ctes q = some steps) :
-    ∃ i, steps = [.fetch i (strip i .noFrom .arg q)] ∧ (∀ it ∈ visit .arg q, pushedOk c ctes i it) ∧
+theorem C11_decision_sound (skip : Bool) (names : List Name) (c : Catalog) (ctes : List Name) (q : Node)
+    (steps : List Step) (h : planTop skip names c ctes q = some steps) :
+    ∃ i, steps = [.fetch i (strip i names .noFrom .arg q)] ∧ (∀ it ∈ visit .arg q, pushedOk skip c ctes i it) ∧
       i ≠ n!"files" ∧ i ≠ n!"views" ∧ c.classType i ≠ some n!"api" := by
   unfold planTop at h
-  cases hc : checkSingle c ctes (visit .arg q) with
+  cases hc : checkSingle skip c ctes (visit .arg q) with
   | none => simp [hc] at h
   | some i =>
     simp only [hc, Option.some.injEq] at h
-    exact ⟨i, h.symm, checkSingle_sound c ctes _ i hc⟩
+    exact ⟨i, h.symm, checkSingle_sound skip c ctes _ i hc⟩
 
 /-- T11.2 -/
 theorem C11_names : C11_names_full := outName_stripIdent
 
-/-- T11.1 -/
-theorem C11_partial_resolution (db : Name) (sch : Schema) (s : Sel) (h : okSel db [] s = true) :
-    resolveAll false db sch [] (stripSel db s) = resolveAll true db sch [] s :=
-  resolveAll_strip db sch s [] [] (by intro sc hsc; simp at hsc) h
+/-- T11.1, for the cut as it is (`names = []`) and for the alias-aware cut of fixes/C11_2.diff: every column
+reference of the stripped query denotes on the integration's own catalog what it denoted on the federated one,
+for all queries of the fragment (any nesting) with `[db.]t` table references in which a two-part column
+reference is qualified by the integration name only if the cut leaves it alone (`db ∈ names`) -/
+theorem C11_partial_resolution (db : Name) (names : List Name) (sch : Schema) (s : Sel)
+    (h : okSel db names s = true) :
+    resolveAll false db sch [] (stripSel db names s) = resolveAll true db sch [] s :=
+  resolveAll_strip db names sch s [] (by intro sc hsc; simp at hsc) h
 
 /-- tables `t(id, x)` and `s(id, y)` -/
 def sch1 : Schema := fun _ t =>
@@ -80,12 +97,18 @@ def aliasQuery : Sel :=
 theorem C11_witness_1 :
     resolveAll true n!"int1" sch1 [] aliasQuery =
       [.ok 0 0 n!"t" n!"x", .ok 0 1 n!"s" n!"y", .ok 0 0 n!"t" n!"id", .ok 0 1 n!"s" n!"id"] ∧
-    resolveAll false n!"int1" sch1 [] (stripSel n!"int1" aliasQuery) =
+    resolveAll false n!"int1" sch1 [] (stripSel n!"int1" [] aliasQuery) =
       [.ok 0 0 n!"t" n!"x", .ok 0 1 n!"s" n!"y", .ambiguous, .ok 0 1 n!"s" n!"id"] ∧
     okSel n!"int1" [] aliasQuery = false := by decide
 
+/-- with the alias-aware cut (fixes/C11_2.diff) the same query is inside the theorem and keeps its meaning -/
+theorem C11_witness_1_fixed :
+    okSel n!"int1" (aliasesOf aliasQuery) aliasQuery = true ∧
+    resolveAll false n!"int1" sch1 [] (stripSel n!"int1" (aliasesOf aliasQuery) aliasQuery) =
+      resolveAll true n!"int1" sch1 [] aliasQuery := by decide
+
 theorem C11_resolution_full_false : ¬ C11_resolution_full := fun h => by
-  have := h n!"int1" sch1 aliasQuery
+  have := h n!"int1" [] sch1 aliasQuery
   rw [C11_witness_1.1, C11_witness_1.2.1] at this
   exact absurd this (by decide)
 
@@ -94,9 +117,11 @@ the reference to the CTE counts as a second integration and the query is not pus
 every real table is in `int1`.  `C11_decision` excludes it (`allResolveTo` fails for the CTE reference);
 with a project as default namespace the same query is pushed down. -/
 theorem C11_witness_2 :
-    checkSingle (mkCatalog ⟨some [.nm n!"int1", .nm n!"int2"], none, .none, some n!"proj"⟩) [n!"cte1"]
+    checkSingle false (mkCatalog ⟨some [.nm n!"int1", .nm n!"int2"], none, .none, some n!"proj"⟩) [n!"cte1"]
       [.table [n!"cte1"], .table [n!"int1", n!"t"]] = none ∧
-    checkSingle (mkCatalog ⟨some [.nm n!"int1", .nm n!"int2"], none, .none, some n!"mindsdb"⟩) [n!"cte1"]
+    checkSingle false (mkCatalog ⟨some [.nm n!"int1", .nm n!"int2"], none, .none, some n!"mindsdb"⟩) [n!"cte1"]
+      [.table [n!"cte1"], .table [n!"int1", n!"t"]] = some n!"int1" ∧
+    checkSingle true (mkCatalog ⟨some [.nm n!"int1", .nm n!"int2"], none, .none, some n!"proj"⟩) [n!"cte1"]
       [.table [n!"cte1"], .table [n!"int1", n!"t"]] = some n!"int1" := by decide
 
 /-! non-vacuity: a nested, aliased, three-part-qualified query satisfies `okSel` and is not trivial -/
@@ -126,8 +151,8 @@ def Step.integration : Step → Name
 def Step.idents : Step → List (List Name × Bool × Option (List Name))
   | .fetch _ q => allIdents q
 
-example : (planTop cat2 [] joinQuery).map (·.map Step.integration) = some [n!"int1"] := by decide
-example : (planTop cat2 [] joinQuery).map (·.flatMap Step.idents) =
+example : (planTop false [] cat2 [] joinQuery).map (·.map Step.integration) = some [n!"int1"] := by decide
+example : (planTop false [] cat2 [] joinQuery).map (·.flatMap Step.idents) =
     some [([n!"s"], false, none), ([n!"t"], false, none), ([n!"t", n!"id"], false, none),
       ([n!"s", n!"id"], false, none), ([n!"t", n!"x"], false, none)] := by decide
 
